@@ -20,8 +20,25 @@ ASSUMPTIONS = ['single namespace; element names without whitespace; comments/PIs
 
 PREFIXES = ['', '', 'p_1', 'chp_1__sec_2', 'x']
 
+# nums that look alike or are equivalent under some normalisation (case, Unicode canonical/compatibility forms, digit scripts):
+# as siblings they must still get distinct ids
+CONFUSABLE = [('\u00e9', 'e\u0301'), ('K', '\u212a'), ('\u00c5', '\u212b'), ('a', 'A'), ('1', '\uff11'), ('1', '\u00b9'), ('\u00df', 'ss'), ('\ufb01', 'fi'),
+              ('\u2163', 'IV'), ('2', '\u0662'), ('\u03a9', '\u2126'), ('i', '\u0131'), ('1a', '1A'), ('(a)', '(A)'), ('x', 'x\u200b'), ('1.', '1'), ('a b', 'ab')]
+
+def confusable_trees():
+    out = []
+    for a, b in CONFUSABLE:
+        for tag in ('section', 'paragraph', 'item', 'part'):
+            for wrap in (False, True):
+                kids = [['E', tag, [], [['E', 'num', [], [['T', a]]], ['E', 'content', [], [['E', 'p', [], [['T', 'x']]]]]]],
+                        ['E', tag, [], [['E', 'num', [], [['T', b]]], ['E', 'content', [], [['E', 'p', [], [['T', 'y']]]]]]],
+                        ['E', tag, [], [['E', 'num', [], [['T', a]]], ['E', 'content', [], [['E', 'p', [], [['T', 'z']]]]]]]]
+                t = ['E', 'body', [], [['E', 'chapter', [], [['E', 'num', [], [['T', '1']]]] + kids]] if wrap else kids]
+                out.append(('', xmlsx.norm_sx(['E', 'akomaNtoso', [], [['E', 'act', [], [t]]]])))
+    return out
+
 def tree_cases(ctx, n):
-    return [(ctx.rng.choice(PREFIXES), xmlsx.norm_sx(gen.gen_akn_tree(ctx.rng))) for _ in range(n)]
+    return [(ctx.rng.choice(PREFIXES), xmlsx.norm_sx(gen.gen_akn_tree(ctx.rng))) for _ in range(n)] + confusable_trees()
 
 def clean_num_cases(ctx):
     out = []
